@@ -759,6 +759,21 @@ func (e *fnEnc) loopEnv(li *loopInfo, phiVal func(*ssa.Phi) Term, heap heapState
 			}
 		}
 	}
+	// address-taken locals (Allocs) win over DebugRef names: their current
+	// value is what the heap holds, not the value they were initialised with
+	for _, b := range e.fn.Blocks {
+		if !b.Dominates(li.header) || b == li.header {
+			continue
+		}
+		for _, in := range b.Instrs {
+			if al, ok := in.(*ssa.Alloc); ok && al.Comment != "" {
+				if d := e.addr[al]; d != nil && (d.kind == aStructRef || d.kind == aDeref) {
+					vars[al.Comment] = e.loadDesc(d, heap)
+					vars["&"+al.Comment] = Term{d.ref, "Int", al.Type()}
+				}
+			}
+		}
+	}
 	// any SSA value defined before the loop may be referenced as $tN
 	for v, ts := range e.val {
 		if len(ts) == 1 {
